@@ -376,6 +376,13 @@ func (e *env) determinism(h *hist) (ref [][]string, okAll bool) {
 	}
 	e.prof("modes_inmemory", t0)
 	t0 = time.Now()
+	for _, c := range cmps {
+		if c.o.class == "node" && !e.nodeService(c) {
+			okAll = false
+		}
+	}
+	e.prof("modes_node_service", t0)
+	t0 = time.Now()
 	if !e.anystoreModes(h, cmps) {
 		okAll = false
 	}
